@@ -141,6 +141,9 @@ pub fn gen_loop(seed: u64, n: usize, family: &str) -> Vec<Scenario> {
             // the sockets of later probes are still connecting or have just connected
             sc.tcp_timeout_us = sc.net.hop_delay_us * rng.random_range(2..14);
         }
+        if sc.proto == "tcp" {
+            sc.net.tcp_sockerr_pct = *pick(&mut rng, &[0, 0, 40]);
+        }
         sc.net.jitter_us = *pick(&mut rng, &[0, 500, 5_000, unit * 3]);
         sc.net.loss = *pick(&mut rng, &[0, 0, 5, 30]);
         sc.net.dup_pct = *pick(&mut rng, &[0, 0, 10]);
